@@ -134,6 +134,9 @@ func ListSplits(repo, diamondID string, stores context2.Stores, opts ...Option) 
 
 	workers.Wait()
 
+	// batches follow the key scan (split IDs): order the whole result by start time, as documented
+	sort.Stable(splits)
+
 	return splits, err // we may have some batches resolved before the error occurred
 }
 
